@@ -110,7 +110,7 @@ func execute(sc scenario) result {
 		}}
 	}
 	m := ogm.NewOpenGameManager(newOpts(0))
-	curGC, curN := 0, 0
+	curGC, curN, firesBefore := 0, 0, 0
 	signalled := map[string]bool{}
 	for _, o := range sc.Ops {
 		r := opRes{Op: o, T0: time.Now()}
@@ -118,6 +118,14 @@ func execute(sc scenario) result {
 		case "setup":
 			m.Setup(o.GC, o.Parts)
 			curGC, curN, signalled = o.GC, len(o.Parts), map[string]bool{}
+			mu.Lock()
+			firesBefore = 0
+			for _, f := range res.Fires {
+				if f.GC == curGC {
+					firesBefore++
+				}
+			}
+			mu.Unlock()
 		case "ready":
 			before := stateString(m.GetState())
 			r.Err = m.Ready(o.ID)
@@ -153,14 +161,14 @@ func execute(sc scenario) result {
 	if curN > 0 && len(signalled) == curN {
 		for deadline := time.Now().Add(3 * time.Second); time.Now().Before(deadline); {
 			mu.Lock()
-			fired := false
+			n := 0
 			for _, f := range res.Fires {
 				if f.GC == curGC {
-					fired = true
+					n++
 				}
 			}
 			mu.Unlock()
-			if fired {
+			if n > firesBefore {
 				break
 			}
 			time.Sleep(200 * time.Microsecond)
@@ -184,6 +192,7 @@ func judge(sc scenario, res result, labels map[string]bool) *verdict {
 	margin := 1500 * time.Millisecond
 	// split into set-up lifetimes
 	type life struct {
+		gen       int // how many earlier set-ups used the same game count
 		gc        int
 		parts     map[string]int
 		start     time.Time // set-up call began
@@ -197,19 +206,25 @@ func judge(sc scenario, res result, labels map[string]bool) *verdict {
 	var lives []*life
 	var cur *life
 	seenGC := map[int]bool{}
+	genOf := map[int]int{}
 	for _, r := range res.Ops {
 		switch r.Op.Kind {
 		case "setup":
 			if cur != nil {
 				cur.end = r.T0
 			}
-			cur = &life{gc: r.Op.GC, parts: r.Op.Parts, start: r.T0, armed: r.T1, firstSig: map[string]time.Time{}}
+			cur = &life{gc: r.Op.GC, gen: genOf[r.Op.GC], parts: r.Op.Parts, start: r.T0, armed: r.T1, firstSig: map[string]time.Time{}}
+			if seenGC[r.Op.GC] {
+				genOf[r.Op.GC]++
+				cur.gen = genOf[r.Op.GC]
+				labels["same_game_count_again"] = true
+			}
 			lives = append(lives, cur)
 			seenGC[r.Op.GC] = true
 		case "rebuild":
 			if cur != nil {
 				// same set-up continues on the rebuilt gate; its timeout restarts
-				nl := &life{gc: cur.gc, parts: cur.parts, start: r.T0, armed: r.T1, firstSig: cur.firstSig, rebuilt: true}
+				nl := &life{gc: cur.gc, gen: cur.gen, parts: cur.parts, start: r.T0, armed: r.T1, firstSig: cur.firstSig, rebuilt: true}
 				cur.end = r.T0
 				cur = nl
 				lives = append(lives, nl)
@@ -247,25 +262,34 @@ func judge(sc scenario, res result, labels map[string]bool) *verdict {
 		cur.end = res.End
 	}
 	// group lifetimes by game count (a rebuild continues the same set-up)
-	byGC := map[int][]*life{}
-	order := []int{}
+	// (a later set-up may use the game count of an earlier, already fired one: a generation of its own)
+	type sid struct{ gc, gen int }
+	byGC := map[sid][]*life{}
+	order := []sid{}
 	for _, l := range lives {
-		if _, ok := byGC[l.gc]; !ok {
-			order = append(order, l.gc)
+		k := sid{l.gc, l.gen}
+		if _, ok := byGC[k]; !ok {
+			order = append(order, k)
 		}
-		byGC[l.gc] = append(byGC[l.gc], l)
+		byGC[k] = append(byGC[k], l)
 	}
 	for _, f := range res.Fires {
 		if !seenGC[f.GC] {
 			return &verdict{"C09.fired-unknown-gamecount", fmt.Sprintf("callback reported game count %d which no set-up used", f.GC)}
 		}
 	}
-	for _, gc := range order {
-		ls := byGC[gc]
+	for _, key := range order {
+		gc := key.gc
+		ls := byGC[key]
+		// this generation's window: from its set-up to the next set-up with the same game count
+		var nextGen time.Time
+		if nl, ok := byGC[sid{gc, key.gen + 1}]; ok {
+			nextGen = nl[0].start
+		}
 		first, last := ls[0], ls[len(ls)-1]
 		var fires []fire
 		for _, f := range res.Fires {
-			if f.GC == gc {
+			if f.GC == gc && !f.At.Before(ls[0].start) && (nextGen.IsZero() || f.At.Before(nextGen)) {
 				fires = append(fires, f)
 			}
 		}
@@ -356,9 +380,16 @@ func genScenario(ch choose.Chooser, withWaits bool) scenario {
 		}
 	}
 	gc := 0
+	prevComplete := false
 	nSetups := ch.Int("setups", 1, 4)
 	for s := 0; s < nSetups; s++ {
-		gc += 1 + ch.Int("gcstep", 0, 3)
+		if s > 0 && prevComplete && choose.Chance(ch, "samegc", 12) {
+			// the previous set-up completed (and was given time to fire): the same game count
+			// is set up again, as a table does when its gate fired but no hand could open
+			sc.Ops = append(sc.Ops, gop{Kind: "pause", Ms: 3})
+		} else {
+			gc += 1 + ch.Int("gcstep", 0, 3)
+		}
 		n := ch.Int("nparts", 1, 10)
 		if choose.Chance(ch, "empty", 8) {
 			// a set-up naming nobody: it supersedes whatever was pending; whether it fires itself is
@@ -379,6 +410,7 @@ func genScenario(ch choose.Chooser, withWaits bool) scenario {
 				sc.Ops = append(sc.Ops, gop{Kind: "ready", ID: fmt.Sprintf("u%d", ch.Int("stale.who", 0, 9))})
 			}
 			sc.Ops = append(sc.Ops, gop{Kind: "pause", Ms: 2})
+			prevComplete = false
 			continue
 		}
 		// signals: a drawn subset in a drawn order, with repetitions and unknown ids
@@ -410,6 +442,7 @@ func genScenario(ch choose.Chooser, withWaits bool) scenario {
 		if k == n && choose.Chance(ch, "settle", 50) {
 			sc.Ops = append(sc.Ops, gop{Kind: "pause", Ms: 2})
 		}
+		prevComplete = k == n && rebuildAt < 0
 		if withWaits && k < n && s == nSetups-1 {
 			sc.Ops = append(sc.Ops, gop{Kind: "wait", Ms: sc.Timeout*1000 + 1700})
 		} else if withWaits && k < n && choose.Chance(ch, "midwait", 30) {
